@@ -3,7 +3,8 @@
    return type lies in the family that the documented meaning gives for arguments of the argument types' families. *)
 From Coq Require Import List String NArith Bool.
 From PDT Require Import Model.Dtype Model.Universe Model.Signature Model.Resolve Model.Enum Model.OverloadChecks
-     Model.Value Model.Ops Model.TypeFam Proofs.TypeFamLemmas.
+     Model.Value Model.Ops Model.Expr Model.Typing Model.TypeFam Proofs.TypeFamLemmas Proofs.TypeLemmas Proofs.TypeReimport
+     Proofs.EvalLemmas Proofs.ImplLemmas.
 From PDTGen Require Import Catalogue.
 Import ListNotations.
 
@@ -19,7 +20,7 @@ Qed.
 
 (* both halves together: a value of the static type's family *)
 Theorem typed_application_proof o args r f vs :
-  In o modelled_ewise -> In args (enum_args o) -> accepted o args = Some r ->
+  In o modelled_ewise -> In args (enum_args o) -> OverloadChecks.accepted o args = Some r ->
   ret_fam o (map fam_of args) = Some f ->
   vs_in vs (map fam_of args) -> in_fam (ewise o vs) (fam_of r) = true.
 Proof.
@@ -34,3 +35,111 @@ Definition claim_count : N :=
   fold_left (fun n o => fold_left (fun m a => if ret_fam_claims o a then N.succ m else m) (enum_args o) n) modelled_ewise 0%N.
 Lemma claims_exist : N.ltb 20000 claim_count = true.
 Proof. vm_compute. reflexivity. Qed.
+
+(* the same over every operator of the catalogue that has a class (robust against changes of modelled_ewise) *)
+Lemma ret_fam_enum_all :
+  forallb (fun o => match classify o with None => true | Some _ => forallb (ret_fam_ok o) (enum_args o) end) all_ops = true.
+Proof. vm_compute. reflexivity. Qed.
+
+Lemma declared_return_family_all o args c :
+  classify o = Some c -> In args (enum_args o) -> ret_fam_ok o args = true.
+Proof.
+  intros Hc Ha. pose proof ret_fam_enum_all as H. rewrite forallb_forall in H. specialize (H o (all_ops_complete o)).
+  rewrite Hc in H. rewrite forallb_forall in H. exact (H args Ha).
+Qed.
+
+Lemma dtypes_eqb_eq : forall a b, dtypes_eqb a b = true -> a = b.
+Proof.
+  induction a as [|x a IH]; destruct b as [|y b]; simpl; intros H; try reflexivity; try discriminate H.
+  apply andb_prop in H. destruct H as [H1 H2]. rewrite (dtype_eqb_eq _ _ H1), (IH _ H2). reflexivity.
+Qed.
+
+Lemma has_type_in_fam v t : has_type v t = true -> in_fam v (fam_of t) = true.
+Proof.
+  unfold has_type. destruct v; try reflexivity; intros H.
+  - induction t; simpl in *; try discriminate; auto. destruct s; simpl in *; try discriminate; reflexivity.
+  - induction t; simpl in *; try discriminate; auto. destruct s; simpl in *; try discriminate; reflexivity.
+  - induction t; simpl in *; try discriminate; auto.
+  - induction t; simpl in *; try discriminate; auto. destruct s; simpl in *; try discriminate; reflexivity.
+  - induction t; simpl in *; try discriminate; auto. destruct s; simpl in *; try discriminate; reflexivity.
+  - induction t; simpl in *; try discriminate; auto. destruct s; simpl in *; try discriminate; reflexivity.
+Qed.
+
+Lemma fam_with_const t : fam_of (with_const t) = fam_of t.
+Proof. destruct t; reflexivity. Qed.
+
+Lemma tys_of_spec env : forall args ats, tys_of env args = Some ats -> Forall2 (fun a t => dtype_of env a = TOk t) args ats.
+Proof.
+  unfold tys_of. induction args as [|a args IH]; intros ats H.
+  - inversion H. constructor.
+  - destruct (dtype_of env a) as [t|] eqn:E; [|discriminate].
+    match type of H with context [match ?g with _ => _ end] => destruct g as [ts|] eqn:E2; [|discriminate] end.
+    inversion H; subst. constructor; [exact E|apply IH; reflexivity].
+Qed.
+
+(* the inner list function of dtype_of agrees with tys_of *)
+Lemma dtype_of_args env (args : list expr) :
+  (fix go (l : list expr) : tres (list dtype) :=
+     match l with
+     | [] => TOk []
+     | a :: l' => tbind (dtype_of env a) (fun t => tbind (go l') (fun ts => TOk (t :: ts)))
+     end) args
+  = match tys_of env args with Some ats => TOk ats | None =>
+      (fix go (l : list expr) : tres (list dtype) :=
+     match l with
+     | [] => TOk []
+     | a :: l' => tbind (dtype_of env a) (fun t => tbind (go l') (fun ts => TOk (t :: ts)))
+     end) args end.
+Proof.
+  unfold tys_of. induction args as [|a args IH]; [reflexivity|]. simpl.
+  destruct (dtype_of env a) as [t|e]; simpl; [|reflexivity].
+  rewrite IH. match goal with |- context [match ?g with Some _ => _ | None => _ end] => destruct g end; reflexivity.
+Qed.
+
+(* EXPRESSION LEVEL: an element-wise expression over columns, literals, casts and modelled operators, every
+   application lying in the enumeration with a family claim, evaluates into the family of its static type *)
+Theorem expr_family_soundness_proof : forall e env t ctx i r,
+  tsound env e = true -> dtype_of env e = TOk t ->
+  (forall u ci, env_get env u = Some ci -> in_fam (get r u) (fam_of (c_dtype ci)) = true) ->
+  in_fam (eval ctx (i, r) e) (fam_of t) = true.
+Proof.
+  apply (expr_ind2 (fun e => forall env t ctx i r,
+    tsound env e = true -> dtype_of env e = TOk t ->
+    (forall u ci, env_get env u = Some ci -> in_fam (get r u) (fam_of (c_dtype ci)) = true) ->
+    in_fam (eval ctx (i, r) e) (fam_of t) = true)).
+  - intros u env t ctx i r _ Ht Henv. cbn [dtype_of] in Ht. destruct (env_get env u) as [ci|] eqn:E; [|discriminate].
+    inversion Ht; subst. simpl. apply (Henv u ci E).
+  - intros v env t ctx i r _ Ht _. cbn [dtype_of] in Ht. inversion Ht; subst. simpl. destruct v; reflexivity.
+  - intros e t' IH env t ctx i r Hs Ht Henv. cbn [tsound] in Hs. cbn [dtype_of] in Ht.
+    destruct (dtype_of env e) as [s|] eqn:E; [|discriminate]. simpl in Ht.
+    destruct (converts_to s t' || is_valid_cast s t'); [|discriminate]. inversion Ht; subst.
+    assert (Hf : fam_of (if is_const s then with_const t' else t') = fam_of t').
+    { destruct (is_const s); [apply fam_with_const|reflexivity]. }
+    rewrite Hf. cbn [eval]. apply has_type_in_fam. apply cast_has_target_type_proof.
+  - intros cs d _ _ env t ctx i r Hs _ _. discriminate Hs.
+  - intros o args hp part arr IHa _ _ env t ctx i r Hs Ht Henv. cbn [tsound] in Hs.
+    repeat (apply andb_prop in Hs; let H := fresh "S" in destruct Hs as [Hs H]).
+    apply negb_true_iff in Hs. subst hp. destruct part; [|discriminate]. destruct arr; [|discriminate].
+    destruct (op_kind o) eqn:K; try discriminate.
+    destruct (classify o) as [c|] eqn:C; [|discriminate].
+    destruct (tys_of env args) as [ats|] eqn:Ta; [|discriminate].
+    apply andb_prop in S. destruct S as [Sen Scl].
+    destruct (ret_fam o (map fam_of ats)) as [f|] eqn:Rf; [|discriminate].
+    apply existsb_exists in Sen. destruct Sen as [x [Hx Ex]]. apply dtypes_eqb_eq in Ex. subst x.
+    (* the static type *)
+    cbn [dtype_of] in Ht. rewrite (dtype_of_args env args), Ta in Ht. cbn [tbind] in Ht.
+    destruct (resolve o ats) as [| sg ret | |] eqn:R; try discriminate.
+    assert (Hacc : OverloadChecks.accepted o ats = Some ret) by (unfold OverloadChecks.accepted; rewrite R; reflexivity).
+    assert (Hfam : fam_of t = fam_of ret).
+    { destruct (ftype_eqb (op_ftype o) ElementWise && forallb is_const (ats ++ [] ++ [])); [|inversion Ht; reflexivity].
+      destruct (is_const ret); [discriminate|]. inversion Ht. reflexivity. }
+    rewrite Hfam. rewrite (eval_elem_fn ctx (i, r) o args false [] [] K).
+    pose proof (declared_return_family_all o ats c C Hx) as Hok. unfold ret_fam_ok in Hok. rewrite Hacc, Rf in Hok.
+    assert (E : f = fam_of ret) by (destruct f, (fam_of ret); simpl in Hok; try discriminate; reflexivity).
+    rewrite <- E. apply (ewise_fam o _ (map fam_of ats) f Rf).
+    (* the arguments *)
+    pose proof (tys_of_spec env args ats Ta) as Hty. clear -IHa S0 Hty Henv.
+    unfold vs_in. revert S0. induction Hty as [|a t0 args ats Ha _ IH]; intros S0; [constructor|].
+    inversion IHa as [|? ? Ia Irest]; subst. simpl in S0. apply andb_prop in S0. destruct S0 as [Sa Srest].
+    simpl. constructor; [apply (Ia env t0 ctx i r Sa Ha Henv)|apply (IH Irest Srest)].
+Qed.
